@@ -170,6 +170,7 @@ PROPS["C14"] = {
 }
 
 PROPS["C16"] = {
+    "with": ["C15"],  # the HTTP/2 exchange driver of the C15 harness
     "level": "exploration",
     "rule": ("(a) sequences of the atomic operations Init/Complete/Await/Clear/Cancel over 2 names and 2 waiters, ALL sequences of a bounded length (4 quick, 6 thorough; a waiter's context signals the driver when Await reaches its select, so every operation is linearised) and random sequences up to length 30 over 3 names, "
              "against a sequential slot model; (b) all orders of builder events (11 kinds incl. build) of bounded length, and 2-4 goroutines adding events with drawn yield points and GOMAXPROCS; "
@@ -180,6 +181,8 @@ PROPS["C16"] = {
                     "a waiter waits for one name at a time",
                     "data races are only visible in the thorough tier, which builds with -race"],
     "units": [
+        # refused stream, no retry: the trace is delivered by the retry timer; a later close must not complete it again
+        {"name": "C16RetryTimer", "pkg": TR, "test": "TestVerifC16RetryTimer", "kind": "enum", "timeout": 300},
         {"name": "C16TracerEnum", "pkg": TR, "test": "TestVerifC16TracerEnum", "kind": "enum", "race": {"quick": False, "thorough": False},
          "shards": {"quick": 8, "thorough": 16}, "env_tier": {"quick": {"VERIF_C16_MAXLEN": 5}, "thorough": {"VERIF_C16_MAXLEN": 6}}},
         {"name": "C16TracerRandom", "pkg": TR, "test": "TestVerifC16TracerRandom", "kind": "rapid", "race": {"quick": False, "thorough": True},
